@@ -1,7 +1,7 @@
 #![allow(unused)]
 fn mk<T>() -> T { unimplemented!() }
 
-pub fn p1164() {
+pub fn p1170() {
     let a: re::math::mat::Matrix<[[f32; 3]; 3], re::math::mat::RealToReal<2, re::render::Model, re::render::World>> = mk();
     let _ = a.transpose();
 }
